@@ -29,15 +29,21 @@ def setup(ctx):
     )
     ctx.assumptions = [
         "host comparison is case-insensitive and ignores brackets; path '' == '/'; an empty query ('?') == no query",
-        "IPvFuture hosts and the letter case of zone identifiers are grey",
+        "IPvFuture hosts are grey; the letter case of an IPv6 zone identifier is significant (interface names), the rest of a host is not",
     ]
     ctx.require("monitor", "accepted_urls", 5000)
     ctx.require("monitor", "ipv6_urls", 300)
     ctx.require("monitor", "live_roundtrips", 22)
 
 
+def host_key(h: str) -> str:
+    """Hosts compare case-insensitively, except an IPv6 zone id (an interface name: case matters)."""
+    addr, pct, zone = h.partition("%")
+    return addr.lower() + pct + zone
+
+
 def comps(p):
-    return (p.hostname.lower(), p.port, p.path or "/", p.query or "")
+    return (host_key(p.hostname), p.port, p.path or "/", p.query or "")
 
 
 def judge_l0(ctx, text, parts=None):
@@ -59,7 +65,7 @@ def judge_l0(ctx, text, parts=None):
     sfx = f":host={kind}"
     if v == "accept":
         # the library's own reading must agree with the grammar's split
-        exp = (info["host"].lower(), info["port"], info["path"] or "/", info["query"])
+        exp = (host_key(info["host"]), info["port"], info["path"] or "/", info["query"])
         if comps(p) != exp:
             bad = [nm for nm, a, b in zip(("host", "port", "path", "query"), comps(p), exp) if a != b]
             ctx.violation(f"misparsed:{'+'.join(bad)}{sfx}", f"parse_url disagrees with the RFC 3986 split in {bad}", dict(wit, expected=exp))
@@ -87,7 +93,7 @@ def judge_l0(ctx, text, parts=None):
 
 EDGE = [
     "gemini://[::1]/x", "gemini://[::1]:1965/x", "gemini://[::1]:7000/x?q", "gemini://[2001:DB8::A]/P", "gemini://[::ffff:1.2.3.4]/",
-    "gemini://[fe80::1%25eth0]/a", "gemini://[fe80::1%25ETH0]:1965/a", "GEMINI://EXAMPLE.ORG/Path?Query", "gemini://example.org",
+    "gemini://[fe80::1%25eth0]/a", "gemini://[fe80::1%25ETH0]:1965/a", "gemini://[FE80::1%25Eth0]/a", "gemini://[fe80::AB%25wlan0.Guest]/", "GEMINI://EXAMPLE.ORG/Path?Query", "gemini://example.org",
     "gemini://example.org?q", "gemini://example.org:1965", "gemini://example.org:/", "gemini://example.org:0/", "gemini://example.org:01965/x",
     "gemini://example.org/a;b;c/d;e?f;g", "gemini://example.org/?", "gemini://example.org/p?", "gemini://example.org/p??", "gemini://example.org//a//b/",
     "gemini://example.org/%2F%2f/..%2F", "gemini://example.org/./../x", "gemini://a!$&'()*+,=b/x", "gemini://ex%41mple.org/", "gemini://1.2.3.4:65535/",
